@@ -364,11 +364,17 @@ def k_upgrade_then(run, case):
         user[k] = (not v) if isinstance(v, bool) else (v + 2 if isinstance(v, (int, float)) else
                                                       (v + ["x"] if isinstance(v, list) else v + "_user"))
     cur.update(user)
-    dropped = [k for k in D if k not in user and rng.random() < .12]
+    # stampless: a settings file restored from a backup / copied from another machine into a fresh
+    # ~/.evo, without the version stamp next to it (the file is complete: nothing to add, the user's
+    # values must survive)
+    stampless = bool(case.get("stampless"))
+    dropped = [k for k in D if k not in user and rng.random() < .12 and not stampless]
     for k in dropped:
         cur.pop(k)
     open(path, "w").write(json.dumps(cur, indent=4, sort_keys=True))
     open(settings.USER_ASSETS_VERSION_PATH, "w").write("v0.0.1-old")
+    if stampless:
+        os.remove(settings.USER_ASSETS_VERSION_PATH)
     cmd = case.get("cmd") or ["reset_subset", "reset_all", "set"][rng.integers(3)]
     keys = list(D)
     if cmd == "reset_subset":
@@ -382,7 +388,8 @@ def k_upgrade_then(run, case):
         argv = ["set", "plot_linewidth", "4.25", "plot_split"]
     pr = cli.run_subprocess("config", argv, os.environ.get("VMON_WORK", "."), os.environ["HOME"])
     after = load_file()
-    run.seen(case, core.digest(cmd, sorted(user), dropped), cls=["first command after a version change: " + cmd],
+    run.seen(case, core.digest(cmd, sorted(user), dropped, stampless), cls=["first command after a version change: " + cmd] +
+             (["settings file without version stamp"] if stampless else []),
              sample={"argv": argv, "user_keys": sorted(user), "dropped": dropped, "rc": pr.returncode})
     if not run.check(pr.returncode == 0, "first command after a version change succeeds", case,
                      "evo_config %s failed right after a version change: %s" % (argv, pr.stderr[-300:]),
@@ -743,7 +750,7 @@ def main(run):
     for i in run.mine({"quick": 100, "thorough": 2000}[run.tier]):
         k_container(run, run.case("container", i))
     for i in run.mine({"quick": 24, "thorough": 400}[run.tier]):
-        k_upgrade_then(run, run.case("upgrade_then", i, cmd=["reset_subset", "reset_all", "set"][i % 3]))
+        k_upgrade_then(run, run.case("upgrade_then", i, cmd=["reset_subset", "reset_all", "set"][i % 3], stampless=(i % 4 == 3)))
     for i in run.mine({"quick": 100, "thorough": 2000}[run.tier]):
         k_merge_config(run, run.case("merge_config", i))
     for i in run.mine({"quick": 9, "thorough": 90}[run.tier]):
